@@ -23,7 +23,7 @@ REQUIRED = {'quick': {'eq_checks': 5000, 'hash_checks': 2000, 'op:subst': 500, '
             'thorough': {'eq_checks': 100000, 'hash_checks': 40000, 'op:subst': 10000, 'op:subst_type': 10000,
                          'op:subst_bound': 10000, 'op:beta_norm': 10000, 'op:abstract_over': 10000,
                          'op:incr_boundvars': 6000, 'sem_checks': 6000, 'churn_comparisons': 3000000,
-                         'order_triples': 20000, 'type_ops': 20000, 'shared_open_object_two_depths': 6000, 'shared_object_abstracted_at_two_depths': 6000}}
+                         'order_triples': 20000, 'type_ops': 20000, 'shared_open_object_two_depths': 3000, 'shared_object_abstracted_at_two_depths': 3000}}
 
 
 def shards(tier, seed):
